@@ -3,7 +3,14 @@
 package gortsplib
 
 import (
+	"bufio"
+	"io"
+	"net"
+
+	"github.com/gorilla/websocket"
+
 	"github.com/bluenviron/gortsplib/v5/internal/asyncprocessor"
+	"github.com/bluenviron/gortsplib/v5/internal/base64streamreader"
 )
 
 // This file is compiled only with the "verif" build tag. It gives the external
@@ -13,3 +20,25 @@ import (
 // VerifAsyncProcessor is the outbound write queue used by client, server
 // sessions and multicast writers.
 type VerifAsyncProcessor = asyncprocessor.Processor
+
+// VerifNewBase64StreamReader returns the reader that decodes the
+// base64-encoded byte stream of the RTSP-over-HTTP tunnel.
+func VerifNewBase64StreamReader(r io.Reader) io.Reader {
+	return base64streamreader.New(r)
+}
+
+// VerifNewServerHTTPTunnel returns the server-side connection of the
+// RTSP-over-HTTP tunnel (reads from the POST channel, writes to the GET channel).
+func VerifNewServerHTTPTunnel(r net.Conn, rb *bufio.Reader, w net.Conn) net.Conn {
+	return newServerHTTPTunnel(r, rb, w)
+}
+
+// VerifNewWSReader returns the reader that turns WebSocket messages into a byte stream.
+func VerifNewWSReader(wc *websocket.Conn) io.Reader {
+	return &wsReader{wc: wc}
+}
+
+// VerifNewWSWriter returns the writer that sends each Write as one WebSocket message.
+func VerifNewWSWriter(wc *websocket.Conn) io.Writer {
+	return &wsWriter{wc: wc}
+}
